@@ -340,7 +340,23 @@ func (e *env) helper(what string, k string, victimStart uint64) {
 	defer cancel()
 	e.trace.add(Event{Kind: "note", Client: "c2", F: map[string]interface{}{"helper": what, "k": k}})
 	switch what {
-	case "reader", "push_min_commit":
+	case "reader", "push_min_commit", "reader_clockjump":
+		if what == "reader_clockjump" {
+			// the resolver's clock jumps by an hour while its first status check is on its way back: the store said
+			// "alive" for the instant it was asked; the lock must still be treated as alive
+			if g := e.gates["c2"]; g != nil {
+				g.osMu.Lock()
+				if g.oneShotAfter == nil {
+					g.oneShotAfter = map[string]func(){}
+				}
+				g.oneShotAfter["CheckTxnStatus"] = func() {
+					e.clk.offsetMs.Add(3600 * 1000)
+					// the resolver judges expiry by the last timestamp its oracle has seen: let it see the new time
+					_, _ = c2.CurrentTimestamp(oracle.GlobalTxnScope)
+				}
+				g.osMu.Unlock()
+			}
+		}
 		ts, err := c2.CurrentTimestamp(oracle.GlobalTxnScope)
 		if err != nil {
 			e.note("helper ts: %v", err)
